@@ -12,10 +12,15 @@
 struct vt_in { uint32_t n; char line[80]; char ch[NSTEP]; };
 #include "vt_in.h"
 
-static int ran, seen_argc; static char seen0[4]; static bool argv_ok;
+static int ran, seen_argc, yields; static char seen0[4]; static bool argv_ok;
 static console_t c;
 static pt_state_t cap(console_t *cc)
 {
+#ifdef CMD_YIELDS	/* a command that yields once before it completes: console_run must relay the yield and resume the SAME command */
+	static int phase;
+	if (!phase) { phase = 1; yields++; return PT_YIELDED; }
+	phase = 0;
+#endif
 	ran++; seen_argc = cc->argc;
 	seen0[0] = cc->argv[0][0]; seen0[1] = cc->argv[0][1];
 	argv_ok = true;
@@ -57,6 +62,9 @@ void h_edit(void)
 		VT_ASSERT(ok);
 		ran = 0; argv_ok = true;
 		pt_state_t s1 = console_run(&c);
+#ifdef CMD_YIELDS
+		if (s1 == PT_YIELDED) { VT_ASSERT(yields == 1 && ran == 0); s1 = console_run(&c); yields = 0; }	/* relayed upward unchanged, then resumed */
+#endif
 		VT_ASSERT(s1 == PT_WAITING);
 		bool dispatch = ch == '\n' || mn >= 79;
 		if (dispatch) {
